@@ -141,11 +141,20 @@ class ScalarFunction:
 
         elif grad in FD_METHODS:
 
+            def fun_in_bounds(x):
+                # The differencing routine shrinks or flips its steps to stay within
+                # the bounds, but `x + h` can still round one ulp past a bound:
+                # project the (real) stencil point back before evaluating.
+                if np.iscomplexobj(x):
+                    return fun_wrapped(x)
+                _lb, _ub = finite_diff_options["bounds"]
+                return fun_wrapped(np.clip(x, _lb, _ub))
+
             def update_grad():
                 self._update_fun()
                 self.ngev += 1
                 self.g = approx_derivative(
-                    fun_wrapped, self.x, f0=self.f, **finite_diff_options
+                    fun_in_bounds, self.x, f0=self.f, **finite_diff_options
                 )
                 # A variable fixed by lb == ub cannot be perturbed: the step is zero
                 # and approx_derivative yields nan for it. That partial derivative is
